@@ -147,7 +147,9 @@ def complete(x, kw, depth=0):
     if type(x) is list or type(x) is tuple:
         return [complete(v, kw, depth + 1) for v in x]
     if type(x) is dict:
-        return {k: complete(v, kw, depth + 1) for k, v in x.items()}
+        # a passed-through named type can be a key too (Dict[SomeEnum, ...] with enums=True): the property
+        # leaves named types untouched wherever they are, the default serialization completes them
+        return {(k if type(k) is str else complete(k, kw, depth + 1)): complete(v, kw, depth + 1) for k, v in x.items()}
     return complete(serialization_default(**kw)(x), kw, depth + 1)
 
 
